@@ -22,7 +22,7 @@ What is accepted (anything else raises `Reject`, which the driver reports as a b
                  binary64 value Python parsed, used only by the float instance),
                  + - * /, unary -, `** k` and `np.power(x, k)` for a literal integer k >= 1,
                  comparisons (chained ones become conjunctions), and/or/not,
-                 `a if c else b`, tuples, calls to:  exp log lgamma sqrt (math), np.log np.exp
+                 `a if c else b`, tuples, calls to:  exp log lgamma sqrt log1p expm1 (math), np.log np.exp np.log1p np.expm1
                  np.sqrt np.tan np.sin np.abs abs np.isfinite np.isinf np.isclose np.array
                  np.full(2, np.nan) min, translated functions of the same module and
                  `hypergeo.<translated function>`;  constants nan inf pi np.nan np.inf np.pi
@@ -521,8 +521,9 @@ class ModuleTranslator:
         b = self.scalar(node, b)
         return ("v", "(if %s then %s else %s)" % (c[1], a[1], b[1]), "T")
 
-    MATH1 = {"exp": "f_exp", "log": "f_log", "lgamma": "f_lgamma", "sqrt": "f_sqrt"}
-    NP1 = {"exp": "f_exp", "log": "f_log", "sqrt": "f_sqrt", "tan": "f_tan", "sin": "f_sin"}
+    MATH1 = {"exp": "f_exp", "log": "f_log", "lgamma": "f_lgamma", "sqrt": "f_sqrt", "log1p": "f_log1p", "expm1": "f_expm1"}
+    NP1 = {"exp": "f_exp", "log": "f_log", "sqrt": "f_sqrt", "tan": "f_tan", "sin": "f_sin", "log1p": "f_log1p",
+           "expm1": "f_expm1"}
 
     def ev_Call(self, node, env):
         if node.keywords:
